@@ -149,3 +149,92 @@ Proof.
     destruct (existsb (fun e => negb (set_mem e ALLOWED_EMIT)) emit); [discriminate|].
     inversion H. cbn. repeat split; reflexivity.
 Qed.
+
+(* ------------------------------------------------------------------ static libraries: search order *)
+
+Lemma find_staticlib_is_rustc_pick ex dirs name :
+  alt_spelling_free ex dirs name = true -> find_staticlib ex dirs name = rustc_static_pick ex dirs name.
+Proof.
+  unfold find_staticlib, rustc_static_pick, alt_spelling_free.
+  induction dirs as [|d dirs IH]; intro H; [reflexivity|].
+  cbn [forallb] in H. apply andb_true_iff in H as [Hd Hr]. apply andb_true_iff in Hd as [H1 H2].
+  apply negb_true_iff in H1, H2.
+  cbn [flat_map map app find]. rewrite H1, H2.
+  destruct (ex (path_join d (bs "lib" ++ name ++ bs ".a"))); [reflexivity|]. apply IH. exact Hr.
+Qed.
+
+Lemma handle_link_state cwd s arg s' :
+  handle cwd s arg = SCont s' ->
+  ps_static_link_paths s' = ps_static_link_paths s ++ native_dirs_of cwd arg /\
+  ps_static_lib_names s' = ps_static_lib_names s ++ static_names_of arg.
+Proof.
+  unfold handle, native_dirs_of, static_names_of, is_native_kind. intro H.
+  destruct arg as [r|u|f a|f a v d]; [| |destruct a|destruct a; destruct v as [raw|rl st oth|k n|o val|n p|ip t]];
+    cbv beta iota in H; split_matches H; try discriminate; inversion H; cbn [ps_static_link_paths ps_static_lib_names];
+    rewrite ?app_nil_r; split; reflexivity.
+Qed.
+
+Lemma normalize_link_state cwd a :
+  native_dirs_of cwd (normalize a) = native_dirs_of cwd a /\ static_names_of (normalize a) = static_names_of a.
+Proof. destruct a as [r|u|f a|f a v d]; try (split; reflexivity). destruct d; split; reflexivity. Qed.
+
+Lemma color_link_state cwd a : is_color a = true -> native_dirs_of cwd a = [] /\ static_names_of a = [].
+Proof.
+  destruct a as [r|u|f a|f a v d]; simpl; try discriminate; destruct a; try discriminate; intros _; split; reflexivity.
+Qed.
+
+Definition link_state_ok (cwd : bytes) (s : pstate) : Prop :=
+  ps_static_link_paths s = flat_map (native_dirs_of cwd) (ps_args s) /\
+  ps_static_lib_names s = flat_map static_names_of (ps_args s).
+
+Lemma parse_loop_link_state fuel : forall cwd s argv s',
+  link_state_ok cwd s -> parse_loop fuel cwd s argv = SCont s' -> link_state_ok cwd s'.
+Proof.
+  induction fuel as [|fuel IH]; intros cwd s argv s' Hs H; simpl in H.
+  - inversion H. subst. exact Hs.
+  - destruct (next_arg argv) as [[r rest]|]; [|inversion H; subst; exact Hs].
+    destruct r as [arg| |]; try discriminate.
+    destruct (handle cwd s arg) as [s1|] eqn:Eh; [|discriminate].
+    pose proof (handle_keeps_args _ _ _ _ Eh) as Ek.
+    destruct (handle_link_state _ _ _ _ Eh) as [Ep En].
+    destruct Hs as [Hp Hn].
+    apply IH in H; [exact H|].
+    unfold link_state_ok. destruct (is_color arg) eqn:Ec.
+    + destruct (color_link_state cwd arg Ec) as [C1 C2].
+      rewrite Ep, En, Ek, C1, C2, !app_nil_r. split; assumption.
+    + unfold with_args. cbn [ps_args ps_static_link_paths ps_static_lib_names].
+      destruct (normalize_link_state cwd arg) as [N1 N2].
+      rewrite !flat_map_app. cbn [flat_map]. rewrite N1, N2, !app_nil_r, Ep, En, Ek, Hp, Hn. split; reflexivity.
+Qed.
+
+(* the static libraries that reach the key: every `-l static=NAME`, looked up in the native/all -L directories in
+   COMMAND-LINE order *)
+Theorem staticlibs_lookup : forall ex argv cwd p,
+  parse_arguments ex argv cwd = PROk p ->
+  exists s,
+    p_arguments p = map arg_pair (ps_args s) /\
+    p_staticlibs p = filter_map (find_staticlib ex (flat_map (native_dirs_of cwd) (ps_args s)))
+                                (flat_map static_names_of (ps_args s)).
+Proof.
+  intros ex argv cwd p H. unfold parse_arguments in H.
+  destruct (parse_loop (S (length argv)) cwd ps_init argv) as [s|r] eqn:El;
+    [|exfalso; eapply parse_loop_stop_not_ok; [exact El|exact H]].
+  exists s.
+  assert (L : link_state_ok cwd s).
+  { eapply parse_loop_link_state; [|exact El]. split; reflexivity. }
+  destruct L as [Lp Ln].
+  unfold finish in H.
+  destruct (ps_input s); [|discriminate]. destruct (ps_output_dir s); [|discriminate].
+  destruct (ps_emit s) as [emit|]; [|discriminate]. destruct (ps_crate_name s); [|discriminate].
+  destruct (negb match emit with [] => true | _ :: _ => false end && negb (set_mem (bs "link") emit)
+            && negb (set_mem (bs "metadata") emit)); [discriminate|].
+  destruct (negb (ps_rlib s) && negb (ps_staticlib s)); [discriminate|].
+  destruct (existsb (fun e => negb (set_mem e ALLOWED_EMIT)) emit); [discriminate|].
+  inversion H. cbn [p_arguments p_staticlibs]. rewrite Lp, Ln. split; reflexivity.
+Qed.
+
+(* a library named with modifiers is looked up (and so hashed) like a plain `static` one *)
+Lemma static_modifiers_looked_up : forall f modifiers name d,
+  static_names_of (AWithValue f LinkLibrary (VKind (bs "static:" ++ modifiers) name) d) = [name] /\
+  static_names_of (AWithValue f LinkLibrary (VKind (bs "static") name) d) = [name].
+Proof. intros. split; reflexivity. Qed.
